@@ -6,7 +6,8 @@ Ctr(h, l) == [hi |-> h, lo |-> l]
 NoCtr == [hi |-> -1, lo |-> 0]
 Cred(id, rp, user, ctr, hm) == [id |-> id, rp |-> rp, user |-> user, ctr |-> ctr, hm |-> hm]
 BaseCfg == [uvCap |-> "configured", upCap |-> TRUE, counterOn |-> TRUE, idLen |-> 16, hmac |-> "off", mc |-> FALSE,
-            storeKind |-> "reference", disc |-> "full", emptyAsErr |-> FALSE]
+            storeKind |-> "reference", disc |-> "full", emptyAsErr |-> FALSE,
+            wrap |-> "none"]     \* which shipped lock wrapper stands in front of the reference store (transparent in the model)
 NoPrfReq == [given |-> FALSE, eval |-> "absent", byCred |-> <<>>, byCredGiven |-> FALSE]
 BaseReq == [rp |-> "r1", user |-> "u1", algs |-> <<"ES256">>, exclude |-> <<>>, excludeGiven |-> FALSE,
             allow |-> <<>>, allowGiven |-> FALSE, rk |-> FALSE, up |-> TRUE, uv |-> FALSE, pinAuth |-> FALSE,
@@ -28,6 +29,11 @@ C19_Pairs == { <<AssertOn("c1"), AssertOn("c1")>>, <<AssertOn("c1"), AssertOn("c
                <<AssertAny, Register("u3", TRUE)>>, <<AssertAny, AssertOn("c1")>>, <<AssertAny, AssertAny>>,
                \* two registrations for the same account, and one for the account an existing credential belongs to
                <<Register("u3", TRUE), Register("u3", TRUE)>>, <<Register("u1", TRUE), AssertOn("c2")>> }
+\* C05 under concurrency: the exclude lookup / the allow-list lookup while another ceremony holds or wants the lock
+RegisterExcluding(u, x) == Cer("mc", [BaseReq EXCEPT !.user = u, !.rk = TRUE, !.exclude = x, !.excludeGiven = TRUE])
+C05_ConcPairs == { <<RegisterExcluding("u3", <<"c1">>), AssertOn("c1")>>, <<RegisterExcluding("u3", <<"c2">>), Register("u4", TRUE)>>,
+                   <<RegisterExcluding("u3", <<"x1", "c1">>), RegisterExcluding("u4", <<"c2">>)>>,
+                   <<RegisterExcluding("u3", <<"x1">>), AssertOn("c2")>> }
 \* the map-like MemoryStore has no listing order: an id-less lookup is predictable only on the reference store
 IdLess(c) == c.op = "ga" /\ ~c.req.allowGiven
 C19_PlanOk(p) == p.cfg.storeKind = "memory" => \A i \in 1..Len(p.cers) : ~IdLess(p.cers[i])
